@@ -189,6 +189,7 @@ func TestC16(t *testing.T) {
 			p.MinBlocks, p.MaxBlocks = 6, 20
 			p.MaxTxs = 12
 			p.VaryGas = true
+			p.BlockGasBoundary = true
 			p.PNoProposer = 15
 			p.W["propose"], p.W["vote"] = 10, 12
 			return p
